@@ -131,7 +131,7 @@ MPT_STRUCT(config_item) : public unique_array<config_item>, public reference<met
 {
 public:
 	class subtree;
-	inline bool unused()
+	inline bool unused() const
 	{
 		return _len == 0;
 	}
@@ -272,6 +272,10 @@ public:
 	int each(item_handler_t handler, void *ctx) const __MPT_OVERRIDE
 	{
 		for (const config_item *e = _elem.begin(), *to = _elem.end(); e != to; ++e) {
+			/* slot of removed element */
+			if (e->unused()) {
+				continue;
+			}
 			subtree sub(e->elements());
 			int ret = handler(ctx, e, e->instance(), &sub);
 			if (ret < 0) {
